@@ -13,7 +13,7 @@ ROOTS = ['streamwriter.verifHarness_', r'v3\.verifHarness_C11_drain', r'v3\.veri
 TAG_FILTER = ('C09/', 'C07/', 'C11/K3/')
 ALLOW = 'bufio,io,encoding/binary,errors,bytes'
 INITS = 'io,bufio,errors,github.com/bluenviron/gomavlib/v3/pkg/message,github.com/bluenviron/gomavlib/v3/pkg/frame'
-OPTIONS = {'x25_uf': True}
+OPTIONS = {'x25_uf': True, 'now_stub': True}
 ANCHOR_FILES = ['/repo/pkg/streamwriter/writer.go', '/repo/pkg/frame/writer.go', '/repo/channel.go', '/repo/node.go']
 
 
